@@ -300,6 +300,9 @@ func toInt(rv reflect.Value) (int, error) {
 		return toInt(rv.Elem())
 
 	default:
+		if !rv.IsValid() { // nil value, rv.Interface() would panic
+			return 0, fmt.Errorf("cose/key: ToInt: invalid value type <nil>")
+		}
 		return 0, fmt.Errorf("cose/key: ToInt: invalid value type %T", rv.Interface())
 	}
 }
@@ -327,6 +330,9 @@ func toKey(rv reflect.Value) (any, error) {
 		return toKey(rv.Elem())
 
 	default:
+		if !rv.IsValid() { // nil value, rv.Interface() would panic
+			return 0, fmt.Errorf("cose/key: toKey: invalid value type <nil>")
+		}
 		return 0, fmt.Errorf("cose/key: toKey: invalid value type %T", rv.Interface())
 	}
 }
